@@ -81,7 +81,7 @@ Proof. exact own_output_matches. Qed.
    for one or more values - the first a map or an array, each below the
    recursion limit, strings valid UTF-8, floats finite - is detected as JSON
    from a slice, whatever the YAML trial would have said. *)
-From XtModel Require Import Utf8 JsonModel JsonWriteModel JsonWriteProofs JsonFloatModel JsonTrialModel JsonTrialProofs.
+From XtModel Require Import Utf8 JsonModel JsonWriteModel JsonWriteProofs JsonFloatModel JsonTrialModel JsonTrialProofs MsgpackTrialProofs.
 
 Theorem C10_json_trial_accepts_what_parses :
   forall (inp : bytes) (evs : list ev) (rest : bytes),
